@@ -19,6 +19,12 @@ def check(chk):
     # the number scanners used by \\ifnum/\\ifdim/\\ifcase: sign discipline (shared with C05)
     from . import c05
     c05.r56(chk, m, rule_id='R3.7')
+    from . import shared, c04
+    shared.sign_rules(chk, m, 'R3.8')
+    # \ifdefined / \ifcsname / \newif look names up through the chain of frames (shared with C04)
+    c04.chain_rules(chk, m, 'R3.9')
+    # a conditional that reads its operand with parameters disabled must re-enable them (shared with C05)
+    c05.r51(chk, m, rule_id='R3.10')
     chk.decline('which branch a concrete program selects for concrete operand values '
                 '(value-level; the tables above are the structural part)')
 
